@@ -223,7 +223,9 @@ def _norm_bound(it, v, dim, default):
     v = zi(v)
     neg = it.ctx.decide(v < 0)
     if neg is None:
-        neg = it.ctx.branch(v < 0)
+        # sign not decided by the path condition: python's rule as a term (no path split)
+        t = r_add(dim, v)
+        return ite(cmp("<", v, 0), ite(cmp(">=", t, 0), t, 0), ite(cmp("<=", v, dim), v, dim))
     if neg:
         t = r_add(dim, v)
         d = it.ctx.decide(cmp(">=", t, 0))
